@@ -209,6 +209,10 @@ impl Screen {
 
         self.dirty.extend(0..lines);
 
+        // The scrolling region does not survive a resize. Drop it before
+        // deleting lines, otherwise it confines (or refuses) the deletion.
+        self.margins = None;
+
         if lines < self.lines {
             self.save_cursor();
             self.cursor_position(Some(0), Some(0));
